@@ -411,6 +411,25 @@ def _np_quantile(models, it, args, kw, fr, node):
     return r
 
 
+def _np_mean_std(which):
+    def f(models, it, args, kw, fr, node):
+        if args and isinstance(args[0], SOpaque) and args[0].sort in ("AnyList", "AnyVals"):
+            t = args[0].t
+            r = it.ctx.uf("np_%s_any" % which, t.sort(), REAL)(t)
+            if which == "std":
+                it.ctx.fact(r >= 0, key=("npstd", r.sexpr()))
+            models.note(it, "axiom:numpy.%s of an opaque list is an uninterpreted function of it%s" % (which, " (>= 0)" if which == "std" else ""))
+            return r
+        prev = _PREV_MS.get(which)
+        if prev is None:
+            raise Unsupported("numpy.%s of %r" % (which, args), node)
+        return prev(models, it, args, kw, fr, node)
+    return f
+
+
+_PREV_MS = {}
+
+
 def _np_percentile(models, it, args, kw, fr, node):
     from .sym import arith
     q = it.run.num(args[1] if len(args) > 1 else kw["q"])
@@ -425,6 +444,9 @@ def _np_dirichlet(models, it, args, kw, fr, node):
 
 _arrays.EXTRA_EXT["numpy.random.dirichlet"] = _np_dirichlet
 _arrays.EXTRA_EXT["scipy.stats.norm.fit"] = _norm_fit
+for _w in ("mean", "std"):
+    _PREV_MS[_w] = _arrays.EXTRA_EXT.get("numpy." + _w)
+    _arrays.EXTRA_EXT["numpy." + _w] = _np_mean_std(_w)
 _prev_quantile = _arrays.EXTRA_EXT.get("numpy.quantile")
 _arrays.EXTRA_EXT.setdefault("numpy.quantile", _np_quantile)
 _arrays.EXTRA_EXT.setdefault("numpy.percentile", _np_percentile)
